@@ -50,7 +50,7 @@ def check(ctx, src):
     py = src.hy(PY)
     env = comp.env
     m_ops, c_ops = env.get("m_ops"), env.get("c_ops")
-    ctx.require(isinstance(m_ops, dict) and isinstance(c_ops, dict) and len(m_ops) == 13 and len(c_ops) == 10, "m_ops / c_ops tables could not be folded")
+    ctx.need(isinstance(m_ops, dict) and isinstance(c_ops, dict) and len(m_ops) == 13 and len(c_ops) == 10, "m_ops / c_ops tables could not be folded")
     c_src = comp.rm.toplevel_assign("c_ops")
     # the unmangled comparison table is the first assignment
     c_first = next(st.value for st in comp.rm.tree.body if isinstance(st, ast.Assign) and norm(st.targets[0]) == "c_ops")
@@ -60,12 +60,12 @@ def check(ctx, src):
         if r["shadow"]:
             for n in r["names"]:
                 shadow[n] = r
-    ctx.require(len(shadow) >= 28, f"{len(shadow)} shadowed macros found, 28 expected")
+    ctx.need(len(shadow) >= 28, f"{len(shadow)} shadowed macros found, 28 expected")
     all_names = None
     for f in py.top("setv"):
         if f.items[1].is_sym("__all__"):
             all_names = [x.items[1].val for x in f.walk() if x.kind == "expr" and x.head() == "quote"]
-    ctx.require(all_names and len(all_names) >= 28, "hy.pyops.__all__ not understood")
+    ctx.need(all_names and len(all_names) >= 28, "hy.pyops.__all__ not understood")
 
     for name, r in sorted(shadow.items()):
         d = py.defn(name)
@@ -90,7 +90,7 @@ def check(ctx, src):
 
     for name, (cls, agg) in sorted(m_ops.items()):
         d = py.defn(name)
-        ctx.require(d is not None, f"pyops {name} missing")
+        ctx.need(d is not None, f"pyops {name} missing")
         syms = body_syms(d)
         cls = str(cls)
         if cls in AST_TO_OPERATOR:
@@ -110,7 +110,7 @@ def check(ctx, src):
         ctx.check(("_foldr" in syms) == (name == "**"), "T-FOLD", f"{name}|pyops fold", f"hy.pyops.{name} {'uses' if '_foldr' in syms else 'does not use'} _foldr", PY, d.line, detail="right fold only for **")
     for name, cls in sorted(c_plain.items()):
         d = py.defn(name)
-        ctx.require(d is not None, f"pyops {name} missing")
+        ctx.need(d is not None, f"pyops {name} missing")
         cls = str(cls)
         syms = body_syms(d)
         if cls in AST_TO_OPERATOR:
@@ -126,7 +126,7 @@ def check(ctx, src):
         ctx.check(d is not None and any(b.kind == "expr" and b.head() == name for b in d.items[4:]), "T-OP", f"{name}|pyops", f"hy.pyops.{name} does not reduce to ({name} x)", PY, 0, detail="same form")
     # comp-op chains pairwise with `and`
     co = py.defn("comp-op")
-    ctx.require(co is not None, "comp-op not found")
+    ctx.need(co is not None, "comp-op not found")
     t = co.src()
     ctx.check("(zip (+ #(a1) a-rest) a-rest)" in t and "(and (unpack-iterable (gfor" in t and "(op x y)" in t, "T-OP", "comp-op|chain", "comp-op no longer tests adjacent pairs left to right", PY, co.line, detail="adjacent pairs")
     # --- macro fold direction and start
@@ -152,7 +152,7 @@ def check(ctx, src):
         ctx.check(ok, "T-FOLD", f"{name}|pyops start", f"hy.pyops.{name} does not left-fold starting from its first argument", PY, d.line, detail="reduce(op, rest, a1) / reduce(op, args)")
     # --- identities
     null = pyq.contains(mx, lambda n: isinstance(n, ast.If) and norm(n.test) == "len(args) == 0")
-    ctx.require(null is not None, "macro nullary arm not found")
+    ctx.need(null is not None, "macro nullary arm not found")
     nd = fold(pyq.contains(null, lambda n: isinstance(n, ast.Dict)))
     for name, v in sorted(nd.items()):
         d = py.defn(name)
@@ -164,7 +164,7 @@ def check(ctx, src):
     ctx.check(set(nd) == {n for n, r in shadow.items() if r["func"].name == "compile_maths_expression" and pattern_arity(r["pattern"])[0] == 0}, "T-IDENT", "nullary|domain",
               "the identity table does not cover exactly the operators that accept zero arguments", R, null.lineno, witness="(|) raises KeyError inside the compiler", detail=str(sorted(nd)))
     un1 = pyq.contains(mx, lambda n: isinstance(n, ast.If) and norm(n.test) == "len(args) == 1")
-    ctx.require(un1 is not None, "macro unary arm not found")
+    ctx.need(un1 is not None, "macro unary arm not found")
     t = [norm(s) for s in un1.body]
     ctx.check(len(un1.body) == 1 and isinstance(un1.body[0], ast.If) and norm(un1.body[0].test) == "root == '/'" and norm(un1.body[0].body[0]) == "args = [Integer(1).replace(expr), args[0]]",
               "T-IDENT", "/|unary", "unary / must be rewritten to (/ 1 x) with the integer 1", R, un1.lineno, witness="(/ x) with a huge int differs from Python's 1/x (float numerator)", detail="[Integer(1), x]")
@@ -196,7 +196,7 @@ def check(ctx, src):
     # --- shadow wrapper
     mc = comp.mc
     w = mc.func("pattern_macro.dec.wrapper_maker.wrapper")
-    ctx.require(w is not None, "pattern_macro wrapper not found")
+    ctx.need(w is not None, "pattern_macro wrapper not found")
     sh = pyq.contains(w, lambda n: isinstance(n, ast.If) and norm(n.test) == "shadow and any((is_unpack('iterable', x) for x in args))")
     parse = pyq.contains(w, lambda n: isinstance(n, ast.Call) and dotted(n.func) == "pattern.parse")
     ctx.check(sh is not None and parse is not None and sh.lineno < parse.lineno and any(st is sh for st in w.body), "T-SHADOW", f"{compq.MC}|pattern_macro.wrapper|fallback-first",
